@@ -353,19 +353,39 @@ def check_slot_capacity(ck, prog, rule):
     for sb in somes:
         facts = panics.dominating_facts(g, sb)
         cap = False
+        is_wsub = lambda x: isinstance(x, tuple) and x[0] == "call" and (x[1] or "").endswith("u32>::wrapping_sub")      # noqa: E731
+        is_wadd1 = lambda x: isinstance(x, tuple) and x[0] == "call" and (x[1] or "").endswith("u32>::wrapping_add") and fold(x[2][1]) == 1   # noqa: E731
+        is_tail = lambda x: mentions(x, g.prov, lambda w: w[0] == "field" and w[2] == "tail") and not mentions(x, g.prov, lambda w: w[0] == "call" and (w[1] or "").endswith(("acquire_khead", "get_khead_relaxed")))  # noqa: E731
+        is_khead = lambda x: all_defs(x, g.prov, lambda z: isinstance(z, tuple) and z[0] == "call" and (z[1] or "").endswith(("acquire_khead", "get_khead_relaxed")))   # noqa: E731
+
+        def distance(d):
+            """(tail + 1) - kernel_head in wrapping arithmetic, in either association"""
+            d = strip_casts(d)
+            if is_wsub(d):                                   # (tail + 1) - head
+                a = strip_casts(d[2][0])
+                if mentions(a, g.prov, lambda z: is_wadd1(z) and is_tail(z[2][0])) and is_khead(d[2][1]):
+                    return True
+            if is_wadd1(d):                                  # (tail - head) + 1
+                a = strip_casts(d[2][0])
+                inner = [z for z in walk_deep(a, g.prov, limit=60) if is_wsub(z)]
+                if inner and is_tail(inner[0][2][0]) and is_khead(inner[0][2][1]):
+                    return True
+            return False
+
+        def is_entries(x):
+            # the bound is the SUBMISSION ring's size (the completion ring is twice as large by default: slots still waiting for the kernel would be handed out again)
+            return mentions(x, g.prov, lambda z: z[0] == "field" and z[2] == "ring_entries") and mentions(x, g.prov, lambda z: z[0] == "field" and z[2] == "submission_queue") and \
+                not mentions(x, g.prov, lambda z: z[0] == "field" and z[2] == "completion_queue")
         for f in facts:
-            if f[0] == "cmp" and f[1] in ("Le", "Lt", "Ge", "Gt"):
-                sides = [strip_casts(f[2]), strip_casts(f[3])]
-                diff = [x for x in sides if isinstance(x, tuple) and x[0] == "call" and (x[1] or "").endswith("u32>::wrapping_sub")]
-                ent = [x for x in sides if mentions(x, g.prov, lambda z: z[0] == "field" and z[2] == "ring_entries")]
-                if diff and ent:
-                    d = diff[0]
-                    nxt_ok = mentions(d[2][0], g.prov, lambda z: z[0] == "call" and (z[1] or "").endswith("u32>::wrapping_add") and mentions(z[2][0], g.prov, lambda w: w[0] == "field" and w[2] == "tail") and fold(z[2][1]) == 1)
-                    head_ok = all_defs(d[2][1], g.prov, lambda z: isinstance(z, tuple) and z[0] == "call" and (z[1] or "").endswith(("acquire_khead", "get_khead_relaxed")))
-                    le = (f[1] == "Le" and strip_casts(f[2]) is d) or (f[1] == "Ge" and strip_casts(f[3]) is d)
-                    # the bound is the SUBMISSION ring's size (the completion ring is twice as large by default: slots still waiting for the kernel would be handed out again)
-                    own = all(mentions(x, g.prov, lambda z: z[0] == "field" and z[2] == "submission_queue") and not mentions(x, g.prov, lambda z: z[0] == "field" and z[2] == "completion_queue") for x in ent)
-                    cap = nxt_ok and head_ok and le and own
+            if f[0] == "cmp" and f[1] in ("Le", "Ge"):
+                lo, hi = (f[2], f[3]) if f[1] == "Le" else (f[3], f[2])
+                if distance(lo) and is_entries(hi):
+                    cap = True
+            # ring_entries.checked_sub(distance) is Some exactly when distance <= ring_entries
+            if f[0] == "variant" and f[2] in ("Continue", "Some"):
+                for z in walk_deep(f[1], g.prov, limit=80):
+                    if z[0] == "call" and (z[1] or "").endswith("u32>::checked_sub") and len(z[2]) == 2 and is_entries(z[2][0]) and distance(z[2][1]):
+                        cap = True
         ck.ob(rule, "slot-only-when-space", cap, fn=g.path, detail="a slot may be handed out only under (tail + 1) - kernel_head <= submission_queue.ring_entries, computed with wrapping arithmetic, where kernel_head is on every path the head word the KERNEL publishes (a private copy of what was flushed says nothing about what the kernel has consumed)")
         # index formula
         idx_ok = False
@@ -379,6 +399,7 @@ def check_slot_capacity(ck, prog, rule):
     # all the same makes the next flush publish a slot nobody filled - the kernel then runs whatever operation that slot held before
     fnq = fns["get_next_sqe_slot"]
     nones = [b["id"] for b in fnq["blocks"] if b["id"] in g.cfg.live_blocks() and any(s["k"] == "assign" and s["dst"]["l"] == 0 and not s["dst"].get("p") and s["rv"]["k"] == "agg" and s["rv"].get("variant") == "None" for s in b["stmts"])]
+    nones += [bb for bb, t in g.cfg.calls(lambda t: (t.get("callee") or "").endswith("from_residual") and t["dst"]["l"] == 0 and not t["dst"].get("p"))]     # `?` on an Option
     moved = []
     for b in fnq["blocks"]:
         if b.get("cleanup") or b["id"] not in g.cfg.live_blocks():
